@@ -7,6 +7,7 @@ import Mathlib.Tactic.Linarith
 import Mathlib.Tactic.Positivity
 import Mathlib.Algebra.Order.Field.Basic
 import Mathlib.Algebra.Order.Field.Rat
+import PcbV.Gen.Translated
 /-
   C39 — RND is a deterministic full-period sequence in [0, 1).
 
@@ -303,5 +304,23 @@ example : reseedKey [0, 0, 0, 0, 0, 0, 0, 0x81] = -32512 := by decide +kernel
 example : ∃ s s', s < period ∧ s' < period ∧ s ≠ s' ∧ s % 256 = s' % 256 := ⟨0, 256, by decide +kernel⟩
 example : ∃ s, s < period ∧ mbfValue (resultBytes s) = 1 / 2 := ⟨8388608, by decide +kernel, by
   rw [value_exact _ (by decide +kernel)]; norm_num⟩
+
+/-! ## Tie to the source: the mechanically translated `_cycle`
+
+`PcbV.Gen.Translated.cycle` is regenerated on every run from the *current Python AST* of
+`Randomiser._cycle` (gen/py2lean.py; Python ints = `Int`, `%` = `Int.fmod`).  The theorems below say
+that it is the hand-written `Rnd.cycle` which all theorems of this file are about, so an edit of
+`_cycle` (or a change of the class constants that reaches only one of the two generated files) breaks
+a proof obligation.  The translated definition itself is compared with the real method by
+`vlib/translated.py`. -/
+
+theorem translated_cycle_supported : Gen.Translated.cycle_supported = true := by decide
+
+/-- on every state (indeed every natural number) the translated `_cycle` is the model's `cycle` -/
+theorem translated_cycle_eq (s : Nat) : Gen.Translated.cycle (s : Int) = ((Rnd.cycle s : Nat) : Int) := by
+  unfold Gen.Translated.cycle Rnd.cycle
+  rw [Int.fmod_eq_emod_of_nonneg _ (by decide)]
+  simp only [Int.natCast_emod, Int.natCast_add, Int.natCast_mul]
+  rfl
 
 end PcbV.C39
